@@ -81,7 +81,9 @@ def render_elem(e):
         return f"{e['h']} => h"
     if e["empty"]:
         return ""
-    pre = {"none": "", "ident": "let x = ", "mut": "let mut x = ", "tuple": "let (x, y) = "}[e["let"]]
+    pre = {"none": "", "ident": "let x = ", "mut": "let mut x = ", "ref": "let ref x = ", "tuple": "let (x, y) = ", "wild": "let _ = ",
+           "paren": "let (x) = ", "tstruct": "let Some(x) = ", "refpat": "let &x = ", "slice": "let [x] = ", "lit": "let 1 = ",
+           "struct": "let S { x } = "}[e["let"]]
     return pre + "v " + " ".join(render_item(it) for it in e["items"])
 
 
